@@ -104,6 +104,56 @@ SIGNING = r"""
 """
 
 
+EXTS = r"""
+    use rcgen::*;
+    fn has(h: &[u8], n: &[u8]) -> bool { h.windows(n.len()).any(|w| w == n) }
+    fn ext_oid(last: u8) -> [u8; 5] { [0x06, 0x03, 0x55, 0x1d, last] }
+    let base = || { let mut p = CertificateParams::default(); p.distinguished_name = DistinguishedName::new(); p.distinguished_name.push(DnType::CommonName, "x"); p };
+    let key = KeyPair::generate().unwrap();
+    let ikey = KeyPair::generate().unwrap();
+    // every extension-bearing field alone: its extension is there and no other standard one
+    let all: [(&str, u8); 8] = [("AKI", 35), ("SAN", 17), ("KU", 15), ("EKU", 37), ("NC", 30), ("CRLDP", 31), ("BC", 19), ("SKI", 14)];
+    let cases: Vec<(&str, CertificateParams, Vec<&str>)> = vec![
+        ("none", base(), vec![]),
+        ("key_usages", { let mut p = base(); p.key_usages = vec![KeyUsagePurpose::DigitalSignature]; p }, vec!["KU"]),
+        ("crl_distribution_points", { let mut p = base(); p.crl_distribution_points = vec![CrlDistributionPoint { uris: vec!["http://a".into()] }]; p }, vec!["CRLDP"]),
+        ("extended_key_usages", { let mut p = base(); p.extended_key_usages = vec![ExtendedKeyUsagePurpose::ServerAuth]; p }, vec!["EKU"]),
+        ("subject_alt_names", { let mut p = base(); p.subject_alt_names = vec![SanType::DnsName("a.example".try_into().unwrap())]; p }, vec!["SAN"]),
+        ("name_constraints", { let mut p = base(); p.name_constraints = Some(NameConstraints { permitted_subtrees: vec![GeneralSubtree::DnsName("a".into())], excluded_subtrees: vec![] }); p }, vec!["NC"]),
+        ("empty name_constraints", { let mut p = base(); p.name_constraints = Some(NameConstraints { permitted_subtrees: vec![], excluded_subtrees: vec![] }); p }, vec![]),
+        ("is_ca", { let mut p = base(); p.is_ca = IsCa::Ca(BasicConstraints::Unconstrained); p }, vec!["BC", "SKI"]),
+        ("explicit no ca", { let mut p = base(); p.is_ca = IsCa::ExplicitNoCa; p }, vec!["BC", "SKI"]),
+        ("aki", { let mut p = base(); p.use_authority_key_identifier_extension = true; p }, vec!["AKI"]),
+        ("ku+crldp+nc", { let mut p = base(); p.key_usages = vec![KeyUsagePurpose::CrlSign]; p.crl_distribution_points = vec![CrlDistributionPoint { uris: vec!["http://a".into()] }];
+            p.name_constraints = Some(NameConstraints { permitted_subtrees: vec![], excluded_subtrees: vec![GeneralSubtree::DnsName("b".into())] }); p }, vec!["KU", "CRLDP", "NC"]),
+    ];
+    for (what, p, want) in cases {
+        let der = p.self_signed(&key).unwrap().der().to_vec();
+        for (name, oid) in all { assert_eq!(has(&der, &ext_oid(oid)), want.contains(&name), "parameters with only {}: extension {}", what, name); }
+    }
+    // AKI = the ISSUER's key identifier (its own method over the issuer SPKI), SKI = own method over the subject SPKI, all method pairs
+    let methods = || vec![KeyIdMethod::Sha256, KeyIdMethod::Sha384, KeyIdMethod::Sha512, KeyIdMethod::PreSpecified(vec![0xa1, 0xa2, 0xa3])];
+    let kid = |m: &KeyIdMethod, spki: &[u8]| -> Vec<u8> { match m { KeyIdMethod::PreSpecified(v) => v.clone(),
+        KeyIdMethod::Sha256 => ring::digest::digest(&ring::digest::SHA256, spki).as_ref()[..20].to_vec(),
+        KeyIdMethod::Sha384 => ring::digest::digest(&ring::digest::SHA384, spki).as_ref()[..20].to_vec(),
+        _ => ring::digest::digest(&ring::digest::SHA512, spki).as_ref()[..20].to_vec() } };
+    for im in methods() { for sm in methods() {
+        let mut ip = base(); ip.is_ca = IsCa::Ca(BasicConstraints::Unconstrained); ip.key_identifier_method = im.clone();
+        let issuer = ip.self_signed(&ikey).unwrap();
+        let mut sp = base(); sp.use_authority_key_identifier_extension = true; sp.is_ca = IsCa::Ca(BasicConstraints::Unconstrained);
+        sp.key_identifier_method = if let KeyIdMethod::PreSpecified(_) = sm { KeyIdMethod::PreSpecified(vec![0xb1, 0xb2]) } else { sm.clone() };
+        let smethod = sp.key_identifier_method.clone();
+        let cert = sp.signed_by(&key, &issuer, &ikey).unwrap();
+        let aki = kid(&im, &ikey.public_key_der());
+        let mut want = vec![0x30, (aki.len() + 2) as u8, 0x80, aki.len() as u8]; want.extend(&aki);
+        assert!(has(cert.der(), &want), "AKI is not the issuer's key identifier (issuer {:?}, subject {:?})", im, smethod);
+        let ski = kid(&smethod, &key.public_key_der());
+        let mut want = vec![0x04, ski.len() as u8]; want.extend(&ski);
+        assert!(has(cert.der(), &want), "SKI is not the subject's key identifier (issuer {:?}, subject {:?})", im, smethod);
+    } }
+"""
+
+
 def program(cex: dict) -> str:
     op = cex.get("op")
     pre = ", ".join(f"({t}, {v})" for (t, v) in cex.get("pre", []))
@@ -159,6 +209,8 @@ def program(cex: dict) -> str:
         body = ISSUING
     if op == "sign-arm":
         body = SIGNING
+    if op == "ext-presence":
+        body = EXTS
     return PRELUDE + "fn main() {\n" + body + "    println!(\"replay-ok\");\n}\n"
 
 
